@@ -22,6 +22,10 @@ type c20Case struct {
 	Gzip   bool   `json:"gzip,omitempty"`
 	CSP    bool   `json:"csp,omitempty"`
 	Length int64  `json:"declared_length,omitempty"`
+	// Members: a gzip body is written as this many concatenated gzip members (0 and 1: one member)
+	Members int `json:"gzip_members,omitempty"`
+	// AfterFailure: the response is filtered right after another one whose body could not be read to its end
+	AfterFailure bool `json:"after_failed_response,omitempty"`
 }
 
 var c20Markers = []string{"</head", "<link", "<style", "<script"}
@@ -57,11 +61,33 @@ func checkC20(c c20Case, rec *Rec) *Violation {
 	hdr.Set("Content-Type", "text/html")
 	if c.Gzip {
 		var buf bytes.Buffer
-		zw := gzip.NewWriter(&buf)
-		_, _ = zw.Write(c.Body)
-		_ = zw.Close()
+		m := c.Members
+		if m < 1 {
+			m = 1
+		}
+		if m > len(c.Body) {
+			m = 1
+		}
+		for k := 0; k < m; k++ {
+			// concatenated members are one gzip file (RFC 1952, section 2.2)
+			zw := gzip.NewWriter(&buf)
+			_, _ = zw.Write(c.Body[k*len(c.Body)/m : (k+1)*len(c.Body)/m])
+			_ = zw.Close()
+		}
 		wire = buf.Bytes()
 		hdr.Set("Content-Encoding", "gzip")
+	}
+	if c.AfterFailure {
+		// a response with a gzip body that is cut off in the middle: filtering it fails, nothing else is expected of it
+		var buf bytes.Buffer
+		zw := gzip.NewWriter(&buf)
+		_, _ = zw.Write(bytes.Repeat([]byte("<p>LEFTOVER of a failed response</p><script>"), 200))
+		_ = zw.Close()
+		cut := buf.Bytes()[:buf.Len()/2]
+		h2 := http.Header{}
+		h2.Set("Content-Type", "text/html")
+		h2.Set("Content-Encoding", "gzip")
+		_, _, _, _ = proxy.VerifFilterHTML(cut, h2, int64(len(cut)))
 	}
 	if c.CSP {
 		hdr.Set("Content-Security-Policy", "default-src 'self'")
@@ -248,6 +274,10 @@ func genC20(t *rapid.T) c20Case {
 	} else if chance(t, "no-declared-length", 4) {
 		c.Length = -1
 	}
+	if c.Gzip && chance(t, "gzip-members", 3) {
+		c.Members = rapid.IntRange(2, 4).Draw(t, "members")
+	}
+	c.AfterFailure = chance(t, "after-failed-response", 6)
 	return c
 }
 
